@@ -128,23 +128,23 @@ P('C05', theorems=['Tcs.fault_safety', 'Tcs.runF_noFault', 'Tcs.commitId_sql', '
   owned={'av.kind', 'gcv.kind', 'as.kind', 'gs.kind', 'http.status', 'state.dump', 'fault.consumed'},
   oracles=[O.o_c05],
   plan={'quick': [{'scen': 'fault', 'args': {}, 'n': 24}], 'thorough': [{'scen': 'fault', 'args': {}, 'n': 400}, {'scen': 'fault', 'args': {'double': '1'}, 'n': 200}]})
-P('C12', theorems=['Tcs.asRunH_countSince', 'Tcs.C12_counter', 'Tcs.C12_only_inputs', 'Tcs.C12_levels', 'Tcs.C12_thresholds_ordered', 'Tcs.C12_monotone', 'Tcs.C12_no_overflow', 'Tcs.C12_meets_spec', 'Tcs.C12_pinned_overflow', 'Tcs.C12_fix_conservative'],
+P('C12', needs_binary=True, theorems=['Tcs.asRunH_countSince', 'Tcs.C12_counter', 'Tcs.C12_only_inputs', 'Tcs.C12_levels', 'Tcs.C12_thresholds_ordered', 'Tcs.C12_monotone', 'Tcs.C12_no_overflow', 'Tcs.C12_meets_spec', 'Tcs.C12_pinned_overflow', 'Tcs.C12_fix_conservative'],
   owned={'av.urgency', 'http.urgency.av', 'dump.own.since', 'av.kind'},
-  oracles=[O.o_c12_urgency, O.o_c12_counter],
-  plan={'quick': [{'scen': 'urgency', 'args': {'shards': 8}, 'n': 8, 'shards': 8}, hist('c10', 60, 'mem:lib,sql:lib,sql:http')],
-        'thorough': [{'scen': 'urgency', 'args': {'shards': 16, 'dense': '1'}, 'n': 16, 'shards': 16}, hist('c10', 2000, 'mem:lib,sql:lib,sql:http')]})
+  oracles=[O.o_c12_urgency, O.o_c12_counter, relabel_if(O.o_c17, 'C12: the urgency is determined by the CONFIGURED targets, including 0 - as the real executable takes them from its flags and environment', ['snapshot targets'])],
+  plan={'quick': [{'scen': 'urgency', 'args': {'shards': 8}, 'n': 8, 'shards': 8}, hist('c10', 60, 'mem:lib,sql:lib,sql:http'), {'scen': 'py:c17', 'args': {}, 'n': 18, 'shards': 6}],
+        'thorough': [{'scen': 'urgency', 'args': {'shards': 16, 'dense': '1'}, 'n': 16, 'shards': 16}, hist('c10', 2000, 'mem:lib,sql:lib,sql:http'), {'scen': 'py:c17', 'args': {}, 'n': 120, 'shards': 12}]})
 P('C14', needs_binary=True, theorems=['Tcs.C14_decode_respond', 'Tcs.C14_handler_uses_respond', 'Tcs.C14_table', 'Tcs.C14_respond_injective', 'Tcs.serve_factor'],
   owned={'http.status.av', 'http.status.gcv', 'http.status.as', 'http.status.gs', 'http.headers.av', 'http.headers.gcv', 'http.headers.as', 'http.headers.gs', 'http.urgency.av', 'http.ctype.gcv', 'http.ctype.gs', 'http.body.gcv', 'http.body.gs'},
-  oracles=[O.o_c14_table],
+  oracles=[O.o_c14_table, O.o_c14_unseen],
   aligned=[('mem:http', 'mem:lib', 'C14: every HTTP response decodes to exactly the library outcome of the same request on a twin storage'),
            ('sql:http', 'sql:lib', 'C14: every HTTP response decodes to exactly the library outcome of the same request on a twin storage')],
-  plan={'quick': [hist('default', 200, 'mem:http,mem:lib,sql:http,sql:lib'), hist('mid', 8, 'mem:http,mem:lib'), grammar(8, 120, wf='1', lists='none'), {'scen': 'py:c17', 'args': {}, 'n': 12, 'shards': 6}],
-        'thorough': [hist('default', 3000, 'mem:http,mem:lib,sql:http,sql:lib'), hist('mid', 120, 'mem:http,mem:lib,sql:http,sql:lib'), grammar(64, 300, wf='1', lists='none'), {'scen': 'py:c17', 'args': {}, 'n': 60, 'shards': 12}]})
-P('C15', theorems=['Tcs.C15_refused', 'Tcs.C15_unknown_route', 'Tcs.C15_refused_no_storage', 'Tcs.C15_limit_inclusive', 'Tcs.C15_oversized', 'Tcs.C15_no_5xx', 'Tcs.serve_factor'],
+  plan={'quick': [hist('default', 200, 'mem:http,mem:lib,sql:http,sql:lib'), hist('mid', 8, 'mem:http,mem:lib'), grammar(8, 120, wf='1', lists='none'), grammar(6, 120, lists='none'), {'scen': 'py:c17', 'args': {}, 'n': 12, 'shards': 6}],
+        'thorough': [hist('default', 3000, 'mem:http,mem:lib,sql:http,sql:lib'), hist('mid', 120, 'mem:http,mem:lib,sql:http,sql:lib'), grammar(64, 300, wf='1', lists='none'), grammar(40, 300, lists='none'), {'scen': 'py:c17', 'args': {}, 'n': 60, 'shards': 12}]})
+P('C15', needs_binary=True, theorems=['Tcs.C15_refused', 'Tcs.C15_unknown_route', 'Tcs.C15_refused_no_storage', 'Tcs.C15_limit_inclusive', 'Tcs.C15_oversized', 'Tcs.C15_no_5xx', 'Tcs.serve_factor'],
   owned={'http.status', 'noop.dump', 'calls.txns'},
-  oracles=[O.o_c15],
-  plan={'quick': [grammar(16, 160, lists='none,one'), grammar(2, 24, big='1', backends='mem', lists='none')],
-        'thorough': [grammar(160, 300, lists='none,one,many'), grammar(8, 60, big='1', backends='mem,sql', lists='none')]})
+  oracles=[O.o_c15, O.o_c15_bin],
+  plan={'quick': [grammar(16, 160, lists='none,one'), grammar(2, 24, big='1', backends='mem', lists='none'), {'scen': 'py:c17', 'args': {'mode': 'malformed'}, 'n': 4, 'shards': 4}],
+        'thorough': [grammar(160, 300, lists='none,one,many'), grammar(8, 60, big='1', backends='mem,sql', lists='none'), {'scen': 'py:c17', 'args': {'mode': 'malformed'}, 'n': 40, 'shards': 8}]})
 P('C16', theorems=['Tcs.C16_unlisted', 'Tcs.C16_unlisted_403', 'Tcs.C16_listed_transparent', 'Tcs.C16_no_list', 'Tcs.C16_empty_list', 'Tcs.serve_factor'], needs_binary=True,
   owned={'http.status', 'calls.txns', 'noop.dump'},
   oracles=[O.o_c16, relabel_if(O.o_c17, 'C16: with an allow-list configured, every request carrying any other client id is refused with 403 and listed clients are served - by the real executable, whatever its log level', ['allow-list', 'listed clients'])],
